@@ -102,7 +102,7 @@ Fixpoint arrtype (fuel : nat) (d : ty) (lb : tk) (toks : list tk) {struct fuel} 
   match fuel with
   | O => DErr 9
   | S f =>
-      if is_ref d then DErr 3
+      if is_ref d then DErr 1                 (* CxxParseError("arrays of references are illegal", tok): a parse error at '[' *)
       else
         lift (consume kty [RB] [lb] toks) (fun grp r' =>
           let size := middle grp in
